@@ -133,7 +133,7 @@ package fox
 //@   ensures tsr-flag: c.tsr ==> old(c.tsr)
 //@   ensures leaf: n != nil ==> n.route != nil
 //@   ensures live: !released[box(c)]
-//@   ensures lazy-len: lazy ==> len(*c.params) <= old(len(*c.params))
+//@   ensures @C09,C08,C01,C11,C12 lazy-len: lazy ==> len(*c.params) <= old(len(*c.params))
 //@   ensures @C16,C01 pool-balance: poolOut[&t.ctx] == old(poolOut[&t.ctx])
 
 //@ -- ---------------------------------------------------------------- C06 / C16: effect clauses (call-graph closure)
